@@ -201,8 +201,19 @@ class CompileResult:
         return self.kind
 
 
-def compile_text(src, opt=0, dbg=False, limit=20.0, want_listing=True):
-    """Compile with the real compiler; never raises (except KeyboardInterrupt)."""
+def compile_text(src, opt=0, dbg=False, limit=20.0, want_listing=True, retry=True):
+    """Compile with the real compiler; never raises (except KeyboardInterrupt).
+    A compile that exceeds `limit` (CPU seconds) is repeated once with ten times
+    the limit before it is called a timeout: on a busy machine the first compile
+    of a worker (grammar construction, allocator contention) can exceed a limit
+    that any real non-termination exceeds by orders of magnitude."""
+    r = _compile_text(src, opt, dbg, limit, want_listing)
+    if r.kind == 'timeout' and retry:
+        r = _compile_text(src, opt, dbg, limit * 10, want_listing)
+    return r
+
+
+def _compile_text(src, opt, dbg, limit, want_listing):
     stage = 'compile'
     try:
         with time_limit(limit):
